@@ -69,10 +69,12 @@ def self_field_flows(fn, adt_path, self_local=1):
     """
     blocks = fn["blocks"]
     res = {}
+    selfs = self_aliases(fn, self_local)
 
     def field_of(pl):
-        """if place reads a field of self: (variant, field) of the first field projection on adt_path"""
-        if pl["l"] != self_local:
+        """if place reads a field of self (or of a plain copy / reborrow of it, e.g. the `&self` handed to an inlined helper):
+        (variant, field) of the first field projection on adt_path"""
+        if pl["l"] not in selfs:
             return None
         var = ""
         for p in pl["p"]:
@@ -99,7 +101,7 @@ def self_field_flows(fn, adt_path, self_local=1):
         if fo:
             s.add(fo)
         t = taint.get(pl["l"])
-        if t and pl["l"] != self_local:
+        if t and pl["l"] not in selfs:
             s |= t
         return s
 
@@ -135,7 +137,7 @@ def self_field_flows(fn, adt_path, self_local=1):
                             src |= seeds_of_op(o)
                 if src:
                     l = s["lhs"]["l"]
-                    if l != self_local:
+                    if l not in selfs:
                         cur = taint.setdefault(l, set())
                         if not src <= cur:
                             cur |= src
@@ -370,6 +372,26 @@ def _is_recursing_call(F, t, family_traits, depth=0):
     c = t.get("callee") or ""
     if c.startswith(("std::ops::Fn::call", "std::ops::FnMut::call_mut", "std::ops::FnOnce::call_once")):
         return True
+    r = t.get("resolved") or c
+    if r in F.fns and depth < 3 and not F.fns[r].get("impl_trait"):
+        # a helper function of the workspace: it continues the traversal if its own body, or a closure / fn item handed
+        # to it, does
+        g = F.fns[r]
+        for h in [g] + [x for x in F.fns.values() if x.get("owner") == g["path"]]:
+            for bi, t2 in mir.calls(h):
+                if _is_recursing_call(F, t2, family_traits, depth + 1):
+                    return True
+        for fr in list(t.get("fnrefs") or []):
+            g2 = F.fns.get(fr)
+            if g2 is None:
+                continue
+            if g2.get("impl_trait") in family_traits:
+                return True
+            for h in [g2] + [x for x in F.fns.values() if x.get("owner") == g2["path"]]:
+                for bi, t2 in mir.calls(h):
+                    if _is_recursing_call(F, t2, family_traits, depth + 1):
+                        return True
+        return False
     name = c.split("::")[-1]
     if name in ADAPTORS and (c.startswith("std::iter::") or c.startswith("std::option::Option") or c.startswith("std::result::Result") or "slice" in c or "Vec" in c):
         for r in list(t.get("fnrefs") or []):
@@ -392,14 +414,30 @@ def _is_recursing_call(F, t, family_traits, depth=0):
 BYVAL = "val"
 BYREF = "ref"
 
+_POLICIES = {}
 
-def check_impl_method(F, fn, adt_path, fam, mode, rule, rows, method_sem=None, self_local=1, must_paths=True, path_ok_blocks=None, family_traits=None):
+
+def _helper_policy(crate):
+    """inline plain functions and inherent methods of the same crate (what a refactoring extracts a helper into): a field of
+    self read inside `self.helper()` is read by the method"""
+    if crate not in _POLICIES:
+        def want(t, callee):
+            if callee["crate"] != crate or callee.get("impl_trait") or callee.get("trait_default"):
+                return False
+            return len(callee["blocks"]) <= 120
+        _POLICIES[crate] = want
+    return _POLICIES[crate]
+
+
+def check_impl_method(F, fn, adt_path, fam, mode, rule, rows, method_sem=None, self_local=1, must_paths=True, path_ok_blocks=None, family_traits=None, inline=True):
     """obligations for one impl method on ADT adt_path.
 
     rows: dict (fn path, variant, field) -> reason  (reviewed exceptions)
     method_sem: "is_constant" enables the conservative-false arm discharge
     """
     obs = []
+    if inline:
+        fn = mir.inline_calls(F, fn, want=_helper_policy(fn["crate"]), depth=2)
     flows, whole = self_field_flows(fn, adt_path, self_local)
     ffields = family_fields(F, adt_path, fam)
     arms = variant_arms(fn, self_local) if method_sem == "is_constant" else None
